@@ -27,6 +27,9 @@ C13_OPS = [
     "elim_refine", "elim_relax", "optimize", "get_variable_bounds", "tl_optimize", "to_machine_dict", "from_dict",
     "to_dict", "from_strings", "to_str_list", "parse", "write_file", "read_file", "tl_or", "tl_sub", "tl_and", "construct",
 ]
+# queries: named by C13's statement ("query"), not by its operation list; they run in C13 sessions too
+C13_QUERY_OPS = ["contains_behavior", "evaluate", "is_empty", "contains_environment", "contains_implementation", "vertices",
+                 "compound_from_strings", "compound_merge", "compound_le", "c_eq", "tl_eq", "c_str"]
 # further public operations in C14's quantifier
 C14_EXTRA_OPS = ["contains_behavior", "evaluate", "is_empty", "compound_from_strings", "compound_merge", "compound_le",
                  "vertices", "contains_environment", "contains_implementation", "validate_dict", "c_eq", "tl_eq", "c_str", "c_hash"]
@@ -123,8 +126,10 @@ def call(name: str, a: Dict[str, Any]) -> Any:  # noqa: WPS212, WPS231
         c2 = PolyhedralIoContractCompound.from_strings(**a["c2"])
         return [c1.a <= c2.a, c1.g <= c2.g]
     if name == "vertices":
+        import pacti.terms.polyhedra.polyhedra as _pl  # noqa: WPS433
         import pacti.utils.plots as plots  # noqa: WPS433
 
+        plots.linprog = _pl.linprog  # the same solver seam (or the real solver) as the rest of the library
         return plots.constraints_to_vertices(a["self"], a["x_var"], a["y_var"], a["var_values"], a["x_lims"], a["y_lims"])
     if name == "contains_environment":
         return a["self"].contains_environment(a["component"])
@@ -203,7 +208,7 @@ def gen_tl(rs, names: List[str], n: Optional[int] = None, must: Optional[List[st
     terms = [gen_term(rs, names, must) for _ in range(n)]
     if shapes and terms and rs.random() < 0.45:
         # adversarial shapes: duplicates, parallel rows, opposite rows, boxes
-        kind = rs.choice(["dup", "parallel", "opposite", "box", "scaled", "difference", "difference", "difference"])
+        kind = rs.choice(["dup", "parallel", "opposite", "box", "scaled", "difference", "difference", "difference", "corner", "single"])
         t = rs.choice(terms)
         cf = {k: float.fromhex(v[1]) for k, v in t["T"]}
         c0 = float.fromhex(t["c"][1])
@@ -215,6 +220,16 @@ def gen_tl(rs, names: List[str], n: Optional[int] = None, must: Optional[List[st
             terms.append(lit_term({k: -v for k, v in cf.items()}, rs.choice([c0, -c0, 0.0, 3.0])))
         elif kind == "scaled":
             terms.append(lit_term({k: 2.0 * v for k, v in cf.items()}, 2.0 * c0))
+        elif kind == "corner":
+            # a box with a diagonal through its corner: the LP optimum is a degenerate vertex (3 active rows in 2-D)
+            if len(names) >= 2:
+                p_, q_ = rs.sample(names, 2)
+                h1, h2 = float(rs.choice([1, 2, 5])), float(rs.choice([1, 2, 5]))
+                terms.extend([lit_term({p_: 1.0}, h1), lit_term({q_: 1.0}, h2), lit_term({p_: 1.0, q_: 1.0}, h1 + h2)])
+        elif kind == "single":
+            # constraints over a single variable only, possibly unbounded on one side
+            nm = rs.choice(names)
+            terms = [lit_term({nm: float(rs.choice([1, -1, 2]))}, float(rs.choice(CONSTS))) for _ in range(rs.choice([1, 2]))]
         elif kind == "difference":
             # a*p - a*q (+ b*r) <= c: renaming p onto q (or eliminating with p = q) cancels the coefficients
             if len(names) >= 2:
@@ -555,8 +570,11 @@ def gen_step(rs, view: View, allowed_ops: List[str], weights: Optional[Dict[str,
         vs = view.tl_vars(view.pool[li])
         cvs = view.tl_vars(view.pool[lj])
         elim = _subset(rs, vs, 0.4) or (vs[:1] if vs else [rs.choice(NAMES)])
-        if rs.random() < 0.15:
+        r_el = rs.random()
+        if r_el < 0.15:
             elim = elim + _subset(rs, cvs, 0.3)
+        elif r_el < 0.3:
+            elim = list(vs) + _subset(rs, cvs, 0.5)  # more eliminated variables than usable context rows
         A["self"] = {"slot": li}
         A["ctx"] = {"slot": lj}
         A["vars"] = _lit([Var(x) for x in dict.fromkeys(elim)])
